@@ -62,6 +62,10 @@ LineOf(c) ==
     [] c = "ws1" -> <<SP, TAB, LF>>
     [] c = "ws_crlf" -> <<CR, LF>>
     [] c = "ws_big" -> Rep(SP, 600) \o <<LF>>
+    [] c = "ws_nbsp" -> <<194, 160, SP, 194, 133, LF>>
+    [] c = "ws_uni" -> <<226, 128, 168, 227, 128, 128, 225, 154, 128, 226, 129, 159, 226, 128, 138, CR, LF>>
+    [] c = "ws_badutf" -> <<SP, 194, LF>>
+    [] c = "ws_zwsp" -> <<226, 128, 139, LF>>
     [] c = "pgp_crc" -> <<EQ, 81, 85, 74, 68, LF>>
     [] c = "partial" -> <<81, 85>>
 
